@@ -431,6 +431,7 @@ func c13Backends() []c13backend {
 		}},
 		{name: "replica[memory memory]", build: c13tree(&cfgNode{Kind: "replica", Kids: []*cfgNode{mem(), mem()}})},
 		{name: "shard[memory memory]", build: c13tree(&cfgNode{Kind: "shard", Kids: []*cfgNode{mem(), mem()}})},
+		{name: "cond[memory memory]", build: c13tree(&cfgNode{Kind: "cond", Kids: []*cfgNode{mem(), mem()}})},
 	}
 }
 
@@ -588,6 +589,34 @@ func c13HistCoq(ops []c13op, outs []c13out) string {
 	return "[" + strings.Join(items, "; ") + "]"
 }
 
+// a key/value engine whose database can no longer begin a transaction (closed underneath: what a shutdown racing with
+// a background writer produces): every call must come back with an error, none may panic or hang
+func c13ClosedKV(c *ctx, dir string) {
+	for _, kind := range []string{"sqlite", "leveldb", "kv", "memory"} {
+		kv, err := sorted.NewKeyValue(jsonconfig.Obj(kvConf(kind, dir, "closedkv-"+kind)))
+		if err != nil {
+			c.rep.Notes = append(c.rep.Notes, "closed kv "+kind+": "+err.Error())
+			continue
+		}
+		kv.Set("a", "1")
+		kv.Close()
+		c.rep.SpecChecks++
+		c.count("closed key/value store", kind)
+		finished, pnc := withTimeout(5*time.Second, func() {
+			b := kv.BeginBatch()
+			b.Set("b", "2")
+			b.Delete("a")
+			_ = kv.CommitBatch(b)
+		})
+		if kind == "memory" {
+			continue // has nothing to close
+		}
+		if !finished || pnc != nil {
+			c.violation(-1, "c13-panic-or-hang:closed-kv:"+kind, fmt.Sprintf("%s key/value store closed underneath: a batch commit finished=%v panic=%v (an error is the answer)", kind, finished, pnc), nil)
+		}
+	}
+}
+
 func runC13(c *ctx) {
 	c.rep.Rule = "backends: files over a faulty VFS, diskpacked with a faulty index and 120-byte packs (a roll-over every second blob), encrypt, namespace, overlay, proxycache, union, replica, shard over faulty memory stores / key-value stores; histories of 12-16 receives (empty blob included), fetches, stats, enumerates, removes over 5 blobs followed by a fault-free probe (stat/fetch all, enumerate, receive, remove); " +
 		"a first run counts the lower-layer calls N, then the history is repeated with an error injected at call k for every k (quick: up to 40 per history), and with random bursts of 2-3 errors; each call under a 3 s watchdog; the answers must be explained by the reference map with every failed call read as done or not done; then the backend's recovery procedure; " +
@@ -599,6 +628,7 @@ func runC13(c *ctx) {
 	must(err)
 	defer os.RemoveAll(dir)
 	c13Gate(c)
+	c13ClosedKV(c, dir)
 	blobs := []*c03blob{}
 	for i, content := range [][]byte{{}, []byte("a"), []byte("the third blob, somewhat longer than the others so that packs fill up"), []byte("fourth"), []byte("fifth blob")} {
 		blobs = append(blobs, &c03blob{id: i + 1, ref: blob.RefFromBytes(content), content: content})
